@@ -76,6 +76,8 @@ func exportsFor(c *Case, env *nativeEnv, callee reflect.Value, mkArgs reflect.Va
 			}
 		}),
 		"HInc":       reflect.ValueOf(func(x int) int { return env.hinc(x) }),
+		"Done":       reflect.ValueOf(func() { env.signal() }),
+		"Wait":       reflect.ValueOf(func() { env.wait() }),
 		"NewWriter":  reflect.ValueOf(func() *hostWriter { return &hostWriter{} }),
 		"NewCounter": reflect.ValueOf(func(n int) *Counter { return &Counter{N: n, env: env} }),
 		"NewHolder":  reflect.ValueOf(func(n int) Holder { return Holder{"h", &Counter{N: n, env: env}} }),
@@ -90,6 +92,17 @@ func exportsFor(c *Case, env *nativeEnv, callee reflect.Value, mkArgs reflect.Va
 		"Holder":     reflect.ValueOf((*Holder)(nil)),
 	}
 	if callee.IsValid() {
+		if c.Ctx == "go" {
+			// the go statement: the callee tells the waiting script when it has returned
+			inner := callee
+			callee = reflect.MakeFunc(inner.Type(), func(in []reflect.Value) []reflect.Value {
+				defer env.signal()
+				if inner.Type().IsVariadic() {
+					return inner.CallSlice(in)
+				}
+				return inner.Call(in)
+			})
+		}
 		m["F"] = callee
 	}
 	if mkArgs.IsValid() {
@@ -101,8 +114,24 @@ func exportsFor(c *Case, env *nativeEnv, callee reflect.Value, mkArgs reflect.Va
 	return interp.Exports{"hp/hp": m}
 }
 
+func (env *nativeEnv) signal() {
+	select {
+	case env.done <- struct{}{}:
+	default:
+	}
+}
+
+// wait blocks until the callee of a go statement has returned (recorded as an observation only when it does not).
+func (env *nativeEnv) wait() {
+	select {
+	case <-env.done:
+	case <-time.After(3 * time.Second):
+		env.rec.obs = append(env.rec.obs, obsT{"Wait", "timeout"})
+	}
+}
+
 func newEnv() *nativeEnv {
-	env := &nativeEnv{rec: &recorder{}}
+	env := &nativeEnv{rec: &recorder{}, done: make(chan struct{}, 8)}
 	env.hinc = func(x int) int { env.record("HInc.0", reflect.ValueOf(x)); return x + 1000 }
 	env.sinc = func(x int) int { env.record("SInc.0", reflect.ValueOf(x)); return x*2 + 1 }
 	return env
@@ -192,7 +221,7 @@ func (s *scriptT) renderCaller(c *Case, calleeExpr string, setup []string) {
 	cx := s.cx
 	s.run = append(s.run, setup...)
 	var args []string
-	type wparam struct{ name, typ string }
+	type wparam = struct{ name, typ string }
 	var wps []wparam
 	if c.Dir == "meth" {
 		switch c.Recv {
@@ -200,13 +229,25 @@ func (s *scriptT) renderCaller(c *Case, calleeExpr string, setup []string) {
 			wps = append(wps, wparam{"cv", "hp.Counter"})
 		case "iface":
 			wps = append(wps, wparam{"ci", "fmt.Stringer"})
-		case "mvalue":
+		case "mvalue", "sptrmv":
 			wps = append(wps, wparam{"mv", c.Sig.ID})
 		case "embedded":
 			wps = append(wps, wparam{"ch", "hp.Holder"})
 		default:
 			wps = append(wps, wparam{"cp", "*hp.Counter"})
 		}
+	}
+	switch c.Callee {
+	case "fnvar":
+		// the host function held in a variable (its type is the host's: callBin)
+		s.run = append(s.run, "fv := "+calleeExpr)
+		wps = append(wps, wparam{"fv", c.Sig.ID})
+		calleeExpr = "fv"
+	case "fntyped":
+		// … in a variable of a function type written by the script: the call goes through `call`, which finds a host function
+		s.run = append(s.run, "var fv "+c.Sig.ID+" = "+calleeExpr)
+		wps = append(wps, wparam{"fv", c.Sig.ID})
+		calleeExpr = "fv"
 	}
 	for k, v := range c.Args {
 		if c.ArgSrc != "" {
@@ -237,7 +278,9 @@ func (s *scriptT) renderCaller(c *Case, calleeExpr string, setup []string) {
 			}
 			args = append(args, name)
 		case "const":
-			if v.Nil && pt.nilable() {
+			if v.Nil && pt.nilable() && c.Spread && k == len(c.Args)-1 {
+				args = append(args, "nil...")
+			} else if v.Nil && pt.nilable() {
 				args = append(args, "nil")
 			} else {
 				args = append(args, cx.lit(v, true))
@@ -262,7 +305,7 @@ func (s *scriptT) renderCaller(c *Case, calleeExpr string, setup []string) {
 	}
 	switch c.ArgSrc {
 	case "scriptcall":
-		wps = wps[:0]
+		wps = keepCallee(wps)
 		lits := make([]string, len(c.Args))
 		tys := make([]string, len(c.Args))
 		for k, v := range c.Args {
@@ -273,7 +316,7 @@ func (s *scriptT) renderCaller(c *Case, calleeExpr string, setup []string) {
 		args = []string{"mkArgs()"}
 	case "hostcall":
 		args = []string{"hp.MkArgs()"}
-		wps = wps[:0]
+		wps = keepCallee(wps)
 	}
 	call := calleeExpr + "(" + strings.Join(args, ", ") + ")"
 	n := len(c.Sig.Out)
@@ -350,7 +393,18 @@ func (s *scriptT) renderCaller(c *Case, calleeExpr string, setup []string) {
 			recorded[i] = false
 		}
 	case "defer":
-		s.run = append(s.run, "func() { defer "+call+" }()")
+		if c.Rebind && c.Recv == "ptr" {
+			// the receiver variable gets another value between the defer statement and the deferred call
+			s.run = append(s.run, "func() { defer "+call+"; cp = hp.NewCounter(50) }()")
+		} else {
+			s.run = append(s.run, "func() { defer "+call+" }()")
+		}
+		for i := range recorded {
+			recorded[i] = false
+		}
+	case "go":
+		// the callee signals when it has returned; the results of a go statement are discarded
+		s.run = append(s.run, "go "+call, "hp.Wait()")
 		for i := range recorded {
 			recorded[i] = false
 		}
@@ -384,6 +438,21 @@ func (s *scriptT) renderCaller(c *Case, calleeExpr string, setup []string) {
 			}
 		}
 	}
+	if c.Rebind {
+		s.run = append(s.run, `hp.Rec("old.N", "int", old.Get())`, `hp.Rec("new.N", "int", cp.Get())`)
+	}
+}
+
+// keepCallee: the parameters of the wrapper function W that stand for the callee (receiver, method value, function variable).
+func keepCallee(wps []struct{ name, typ string }) []struct{ name, typ string } {
+	var out []struct{ name, typ string }
+	for _, p := range wps {
+		switch p.name {
+		case "cv", "ci", "mv", "ch", "cp", "fv":
+			out = append(out, p)
+		}
+	}
+	return out
 }
 
 // assertTargets: for each result, the dynamic type the script may assert it back to (nil if none): the result
@@ -438,18 +507,9 @@ func nativeCall(c *Case, env *nativeEnv, fv reflect.Value) {
 	switch {
 	case c.Spread:
 		res = fv.CallSlice(in)
-	case ft.IsVariadic():
-		// what a compiled caller does: the variadic parameter is nil when no argument is given, else a new slice
-		nf := ft.NumIn() - 1
-		st := ft.In(nf)
-		sl := reflect.Zero(st)
-		if len(in) > nf {
-			sl = reflect.MakeSlice(st, 0, len(in)-nf)
-			sl = reflect.Append(sl, in[nf:]...)
-		}
-		res = fv.CallSlice(append(append([]reflect.Value{}, in[:nf]...), sl))
 	default:
-		res = fv.Call(in)
+		// what a compiled caller does: the variadic parameter is nil when no argument is given, else a new slice
+		res = goCall(fv, in)
 	}
 	recorded := make([]bool, len(res))
 	for i := range recorded {
@@ -465,7 +525,7 @@ func nativeCall(c *Case, env *nativeEnv, fv reflect.Value) {
 			env.recordStatic(fmt.Sprintf("res.%d", i), nil, r.Interface())
 			recorded[i] = false
 		}
-	case "stmt", "defer":
+	case "stmt", "defer", "go":
 		for i := range recorded {
 			recorded[i] = false
 		}
@@ -572,7 +632,13 @@ func runRef(c *Case) outcome {
 			fv := env.makeFunc(c.Sig.RT, c.Sig, c.Body)
 			nativeCall(c, env, fv)
 		case "meth":
-			nativeCall(c, env, nativeMethod(c, env))
+			m, ctr := nativeMethod(c, env)
+			nativeCall(c, env, m)
+			if c.Rebind {
+				// the call ran on the receiver the method value / defer statement was evaluated with
+				env.recordStatic("old.N", nil, ctr.N)
+				env.recordStatic("new.N", nil, 50)
+			}
 		case "var":
 			refVar(c, env)
 		case "retain":
@@ -583,17 +649,19 @@ func runRef(c *Case) outcome {
 }
 
 // nativeMethod returns the bound method value of a fresh native receiver.
-func nativeMethod(c *Case, env *nativeEnv) reflect.Value {
+func nativeMethod(c *Case, env *nativeEnv) (reflect.Value, *Counter) {
 	ctr := &Counter{N: 3, env: env}
 	switch c.Recv {
 	case "val":
 		if m := reflect.ValueOf(*ctr).MethodByName(c.Method); m.IsValid() {
-			return m
+			return m, ctr
 		}
 	case "embedded":
-		return reflect.ValueOf(Holder{"h", ctr}).MethodByName(c.Method)
+		return reflect.ValueOf(Holder{"h", ctr}).MethodByName(c.Method), ctr
+	case "sptr", "sptrmv":
+		ctr = &Counter{N: 3} // made by the script: the unexported recorder is not set
 	}
-	return reflect.ValueOf(ctr).MethodByName(c.Method)
+	return reflect.ValueOf(ctr).MethodByName(c.Method), ctr
 }
 
 // runTwin: script caller, script callee.
@@ -604,6 +672,13 @@ func runTwin(c *Case) outcome {
 	env := newEnv()
 	s := newScript()
 	s.renderCallee(c, "F")
+	if c.Ctx == "go" {
+		// the script twin of the callee signals as the host callee does
+		d, head := s.decls[len(s.decls)-1], "func F"+s.cx.renderSig(c.Sig, 0)+" {"
+		if strings.HasPrefix(d, head) {
+			s.decls[len(s.decls)-1] = head + " defer hp.Done();" + d[len(head):]
+		}
+	}
 	s.renderCaller(c, "F", nil)
 	src := s.source()
 	return guarded(env, src, func(ctx context.Context) string {
@@ -736,9 +811,19 @@ func methodSetup(c *Case) ([]string, string) {
 	case "iface":
 		return []string{"var ci fmt.Stringer = hp.NewCounter(3)"}, "ci." + c.Method
 	case "mvalue":
+		if c.Rebind {
+			return []string{"cp := hp.NewCounter(3)", "old := cp", "mv := cp." + c.Method, "cp = hp.NewCounter(50)"}, "mv"
+		}
 		return []string{"cp := hp.NewCounter(3)", "mv := cp." + c.Method}, "mv"
+	case "sptr":
+		return []string{"cp := &hp.Counter{N: 3}"}, "cp." + c.Method
+	case "sptrmv":
+		return []string{"cp := &hp.Counter{N: 3}", "mv := cp." + c.Method}, "mv"
 	case "embedded":
 		return []string{"ch := hp.NewHolder(3)"}, "ch." + c.Method
+	}
+	if c.Rebind {
+		return []string{"cp := hp.NewCounter(3)", "old := cp"}, "cp." + c.Method
 	}
 	return []string{"cp := hp.NewCounter(3)"}, "cp." + c.Method
 }
